@@ -1,0 +1,62 @@
+//go:build verif
+
+package node
+
+// Exports for the verification harness (properties C12 / C13): access to the store of a
+// state machine and a bare KVNode on which the node-level scan handlers (cursor
+// computation, table-boundary trimming) can be called without raft.
+
+import (
+	"errors"
+	"strings"
+
+	"github.com/absolute8511/redcon"
+	"github.com/youzan/ZanRedisDB/common"
+)
+
+// VerifScanStore returns the store behind a kv state machine (nil for other kinds).
+func VerifScanStore(sm StateMachine) *KVStore {
+	if kvsm, ok := sm.(*kvStoreSM); ok {
+		return kvsm.store
+	}
+	return nil
+}
+
+// VerifScanBareNode builds a KVNode that has only a store and a namespace name; only the
+// read-side scan handlers may be used on it.
+func VerifScanBareNode(store *KVStore, ns string) *KVNode {
+	return &KVNode{store: store, ns: ns}
+}
+
+// VerifScanKeys dispatches scan / revscan / advscan / advrevscan exactly as
+// registerHandler wires them (scan and revscan go through wrapMergeCommand).
+func (nd *KVNode) VerifScanKeys(cmd redcon.Command) (interface{}, error) {
+	var h common.MergeCommandFunc
+	switch strings.ToLower(string(cmd.Args[0])) {
+	case "scan", "revscan":
+		h = wrapMergeCommand(nd.scanCommand)
+	case "advscan", "advrevscan":
+		h = nd.advanceScanCommand
+	default:
+		return nil, errors.New("not a key scan command")
+	}
+	return h(cmd)
+}
+
+// VerifScanColl dispatches hscan / sscan / zscan and their reverse variants exactly as
+// registerHandler wires them (through wrapReadCommandKAnySubkey).
+func (nd *KVNode) VerifScanColl(conn redcon.Conn, cmd redcon.Command) {
+	var h common.CommandFunc
+	switch strings.ToLower(string(cmd.Args[0])) {
+	case "hscan", "hrevscan":
+		h = wrapReadCommandKAnySubkey(nd.hscanCommand)
+	case "sscan", "srevscan":
+		h = wrapReadCommandKAnySubkey(nd.sscanCommand)
+	case "zscan", "zrevscan":
+		h = wrapReadCommandKAnySubkey(nd.zscanCommand)
+	default:
+		conn.WriteError("not a collection scan command")
+		return
+	}
+	h(conn, cmd)
+}
